@@ -220,7 +220,8 @@ def gen_message(rng, kind):
     if rng.random() < 0.3:
         hs.append(("Connection", " ", rng.choice(["close", "keep-alive", "Keep-Alive"]), ""))
     if rng.random() < 0.3:
-        hs.append(("Content-Type", rng.choice(OWS), rng.choice(["application/json", "text/plain; charset=utf-8", "text/html"]), ""))
+        hs.append(("Content-Type", rng.choice(OWS), rng.choice(["application/json", "text/plain; charset=utf-8", "text/html", "text/plain; foo", "text/plain;",
+                                                                "application/json;charset", "text/plain; charset=\"utf-8\"; x", "a/b;;"]), ""))
     pre = b""
     if kind == "rsp" and rng.random() < 0.08:
         pre = b"HTTP/1.1 100 Continue\r\n" + rng.choice([b"", b"X-Wait: 1\r\n"]) + b"\r\n"
